@@ -18,6 +18,7 @@ from .. import shapes as S
 from .. import vpool
 
 PROPERTY = "C17"
+VIA_HISTORY_EVERY = 7      # every k-th shape case is also run on an object that reached its definition through edits
 EXPLORERS = ['E1', 'E3']
 RULE = ("a fixed query battery (points at all span parameters, sampled grid, derivatives of orders 0..p+2, insert / "
         "insert+remove / refine then evaluate, split, tessellation, voxel fill) is run on every shape of a reduced C01 "
@@ -198,6 +199,11 @@ def gen_cases(tier, seed):
             pass
         for ai, (a, s) in enumerate(A.AFFINE):
             cases.append(dict(mode='normalize', shape=d, affine=[[a, s]] + [list(A.AFFINE[(ai + 1 + k) % 5]) for k in range(d['pdim'] - 1)]))
+    for p in (2, 3):
+        kv = A.rep_kvs(p, 1)[3 if p == 2 else 4]
+        for rat in (False, True):
+            for a, s in A.AFFINE[1:4]:
+                cases.append(dict(mode='shared_kv', shape=A.shape_desc([kv, kv], [p, p], rat, 3, 'coded', 'coded'), affine=[a, s]))
     # (c) schedules
     q = tier == 'quick'
     for nsurf in ([1, 2, 3] if q else [1, 2, 3, 4]):
@@ -223,6 +229,8 @@ def run_case(case, ctx):
         _span_eval(case, ctx)
     elif m == 'normalize':
         _normalize(case, ctx)
+    elif m == 'shared_kv':
+        _shared_kv(case, ctx)
     elif m == 'sched_tessellate':
         _sched_tessellate(case, ctx)
     elif m == 'sched_voxelize':
@@ -294,6 +302,54 @@ def _normalize(case, ctx):
             # split pieces and voxel grids live in the same space; knot vectors of an insertion were mapped back
             pass
         compare(ctx, 'C17.normalize', ref, got, rc, feats, scale)
+
+
+def _shared_kv(case, ctx):
+    """normalize_kv=False stores the caller's list: one list object given for u and v (and to two shapes) must behave like
+    separate equal lists - the library may not scribble on a knot vector it was handed"""
+    from geomdl import BSpline, NURBS
+    desc = case['shape']
+    a, s = case['affine']
+    ref_obj = S.build(desc, ctx.seed)
+    scale = S.max_abs(S.snapshot(ref_obj))
+    ref = battery(ref_obj, desc['kvs'], desc['degrees'])
+    shared = A.affine_kv(desc['kvs'][0], a, s)
+    keep = list(shared)
+    pts, w, pw = S.net_points(desc, ctx.seed)
+    cls = (NURBS if desc['rational'] else BSpline).Surface
+    obj = cls(normalize_kv=False)
+    obj.degree_u, obj.degree_v = desc['degrees']
+    obj.set_ctrlpts([list(p) for p in (pw if desc['rational'] else pts)], *desc['sizes'])
+    obj.knotvector_u = shared
+    obj.knotvector_v = shared          # the same list object
+    feats = dict(pdim=2, rational=desc['rational'], normalize_kv=False, affine=[a, s], shared_list=True, degrees=desc['degrees'])
+    ctx.state(dict(d=desc, sh=[a, s]), nontrivial=True)
+    try:
+        got = battery(obj, desc['kvs'], desc['degrees'], aff=[(a, s), (a, s)])
+    except Exception as e:
+        ctx.check('C17.normalize.no_new_failure', False, case, feats, 'call valid with normalised knots succeeds', repr(e))
+        return
+    compare(ctx, 'C17.normalize', ref, got, case, feats, scale)
+    ctx.check('C17.normalize.caller_knotvector_unchanged', shared == keep, case, feats, keep, shared)
+    # removal of an existing interior knot in u as the FIRST knot operation (insertion would replace the stored list)
+    from geomdl import operations
+    interior = [k for k in desc['kvs'][0] if 0.0 < k < 1.0]
+    if interior:
+        t = interior[0]
+        n_obj = S.build(desc, ctx.seed)
+        operations.remove_knot(n_obj, [t, None], [1, 0])
+        o = copy.deepcopy(obj)
+        try:
+            operations.remove_knot(o, [a + s * t, None], [1, 0])
+            kv_v = [(k - a) / s for k in o.knotvector_v]
+            ctx.close('C17.normalize.remove_first.other_direction_knots', kv_v, list(n_obj.knotvector_v), 1e-12, 1.0, case, feats)
+            prms = [(0.0, 0.0), (0.3, 0.6), (0.5, 0.5), (1.0, 1.0), (0.75, 0.2)]
+            got_pts = [o.evaluate_single([a + s * u, a + s * v]) for u, v in prms]
+            exp_pts = [n_obj.evaluate_single([u, v]) for u, v in prms]
+            ctx.close('C17.normalize.remove_first.points', got_pts, exp_pts, TOL, scale, case, feats)
+        except Exception as e:
+            ctx.check('C17.normalize.no_new_failure', False, case, feats, 'call valid with normalised knots succeeds', repr(e))
+    ctx.check('C17.normalize.caller_knotvector_unchanged', shared == keep, case, feats, keep, shared)
 
 
 # ---------------------------------------------------------------------------------------- (c)
